@@ -218,10 +218,16 @@ func evalEAN(c *core.Ctx, cs *core.Case) {
 		return b, e
 	})
 	if !ok {
+		if want == mustAccept {
+			c.Fail("C06", cs, "digits with a correct (or no) check digit were refused")
+		}
 		return
 	}
 	if want != mustAccept {
-		return // already reported by outcome; nothing defined to compare against
+		if (len(s) == 8 || len(s) == 13) && allDigits(s) {
+			c.Fail("C06", cs, "accepted although the last digit is not the GS1 check digit %c", lin1d.EANCheckDigit(s[:len(s)-1]))
+		}
+		return // nothing defined to compare against
 	}
 	full := s
 	if len(s) == 7 || len(s) == 12 {
